@@ -13,6 +13,7 @@ import FeatModel.Lemmas.C18_global
 import FeatModel.Lemmas.C18_tp
 import FeatModel.Lemmas.C18_nested
 import FeatModel.Lemmas.C18_intref
+import FeatModel.Lemmas.C18_intlift
 import FeatModel.Lemmas.C18_layout
 import FeatModel.Lemmas.C18_convert
 import Mathlib.Tactic.IntervalCases
@@ -352,17 +353,16 @@ theorem C18.prolongation_exact_lagrange {t : FeatModel.Poly.BasisTab} {k : FeatM
     ∀ r, r < d.nf → (matVec d.nf d.nc pd xc).getD r 0 = vf r :=
   C18L.prolongation_exact_param hn xis d hp hmaps locs pd xc vf hlocs hpd hsame
 
-/-! ### the refined rule reproduces the coarse mass matrix — derived on the reference cell
+/-! ### the refined rule reproduces the coarse mass matrix — derived, reference cell and affine cases
 
-Full statement wanted: `intB d = true` for every case of a Lagrange family with a rule that is exact for degree `2k`.
-Proved part (`_partial`): the *reference-cell* identity — the refined rule (children `c`, weights `w_q/nch`, points
-`A_c ξ_q`) integrates every coarse mass integrand `φ̂_l φ̂_j` like the unrefined rule — from exactness of the rule on
-the monomials (C16's `local_integral_exact`, linearity over C14's reference integrals) and the change of variables
-`∫ p = Σ_c |det A_c| ∫ p∘A_c` (kernel-evaluated).  Missing: the lift to the physical weights of a `Dump`
-(`jac_det` constant on an affine cell and `jac_det_fine = jac_det_coarse / nch`); until then `intB` stays a per-case
-certificate of the driver (stream `certificates`). -/
+Reference cell: the refined rule (children `c`, weights `w_q/nch`, points `A_c ξ_q`) integrates every coarse mass
+integrand `φ̂_l φ̂_j` like the unrefined rule — from exactness of the rule on the monomials (C16's
+`local_integral_exact`, linearity over C14's reference integrals) and the change of variables
+`∫ p = Σ_c |det A_c| ∫ p∘A_c` (kernel-evaluated).  `C18.intB_affine` lifts this to the certificate `intB` of every case
+on affine cells (constant `jac_det` per cell, `jac_det_fine = jac_det_coarse / nch`, parametric element); on other cases
+(non-affine cells, families/rules outside the table) `intB` stays a per-case certificate of the driver. -/
 
-theorem C18.intB_reference_partial (t : FeatModel.Poly.BasisTab) (k : FeatModel.FE.Kind) (simplex : Bool) (d : Nat)
+theorem C18.refined_rule_reproduces_reference (t : FeatModel.Poly.BasisTab) (k : FeatModel.FE.Kind) (simplex : Bool) (d : Nat)
     (r : FeatModel.LocalFE.Rule) (ms : List FeatModel.Poly.Mono)
     (hex : r.exactOn simplex d ms = true) (hm : C18L.monosB t k d ms = true) (hcov : C18L.covB t k simplex d = true)
     {l j : Nat} (hl : l < t.nloc) (hj : j < t.nloc) :
@@ -370,6 +370,18 @@ theorem C18.intB_reference_partial (t : FeatModel.Poly.BasisTab) (k : FeatModel.
         FeatModel.LocalFE.localEntry r (1 / (numChildren k d : Nat) : Rat) (childMassPoly t k d c l j)).sum
       = FeatModel.LocalFE.localEntry r 1 (massPoly t d l j) :=
   C18L.refined_rule_reproduces t k simplex d r ms hex hm hcov hl hj
+
+/-- **intB derived for affine cases**: for a parametric element of the nestedness table, a rule that is exact on the
+monomials of the mass integrands (table below) and a case whose cells are affine (`AffParam`: per coarse cell a constant
+`detJ`; coarse loop weights `detJ·w_q`, child loop weights `detJ/nch·w_q`, basis values = reference polynomials at `ξ_q`
+resp. `A_c ξ_q`) the certificate `intB` holds — so `C18.truncation_prolongation_identity` needs only `consB` and `mapsB` there -/
+theorem C18.intB_affine {t : FeatModel.Poly.BasisTab} {k : FeatModel.FE.Kind} {simplex : Bool} {dim : Nat}
+    {r : FeatModel.LocalFE.Rule} {ms : List FeatModel.Poly.Mono}
+    (hex : r.exactOn simplex dim ms = true) (hm : C18L.monosB t k dim ms = true) (hcov : C18L.covB t k simplex dim = true)
+    (hn : nestedRefB t k dim = true) (d : Dump) (haff : C18L.AffParam t k dim r d)
+    (hok : ∀ cell ∈ d.cells, ∀ ch ∈ cell.children, ∃ x, localProl cell.cmap.length ch = .ok x) :
+    intB d = true :=
+  C18L.intB_of_affine hex hm hcov hn d haff hok
 
 /-- the hypotheses hold (kernel evaluation) for: Lagrange-1 with Simpson on the line and the square, Lagrange-2 with
 Newton–Cotes-closed:5 on the line, Lagrange-1 with Lauffer-2 on the triangle (Lagrange-2 / Newton–Cotes:5 on the
